@@ -311,6 +311,24 @@ static Poly genPoly(Rng& r, Out& out, bool allowHuge = true) {
             po.rings.push_back(hole);
         }
         if (po.rings.size() > 1 && po.cls == "staircase") po.cls = "staircase+holes";
+    } else if (k < 63) {    // a chain of holes: the first touches the shell in one point, each further one touches its predecessor at a vertex
+        // (diamonds / triangles strung along a horizontal line from the left edge of a rectangle, the last one ending short of the right edge;
+        // the joined ring then passes several times through the touch points, with passes that run exactly back along each other)
+        po.cls = "hole-chain"; int n = r.range(2, 4); std::vector<i64> w, a, b; i64 tot = 0;
+        for (int j = 0; j < n; j++) { w.push_back(2 * r.range(1, 3)); i64 aj = r.range(0, 3), bj = r.range(0, 3); if (aj == 0 && bj == 0) { if (r.chance(50)) aj = r.range(1, 3); else bj = r.range(1, 3); } a.push_back(aj); b.push_back(bj); tot += w.back(); }
+        i64 Sx = tot + r.range(2, 6), Sy = 8 + r.range(0, 6), h = r.range(4, (int) Sy - 4);
+        std::vector<P> ring = {P{0, 0}, P{Sx, 0}, P{Sx, Sy}, P{0, Sy}};
+        if (r.chance(50)) ring.push_back(P{0, h});          // the touch point of the first hole is a shell vertex or lies inside a shell edge
+        ring.push_back(ring[0]); po.rings.push_back(ring);
+        i64 x = 0; std::vector<std::vector<P>> holes;
+        for (int j = 0; j < n; j++) { i64 x1 = x + w[j], m = x + w[j] / 2; std::vector<P> hole = {P{x, h}};
+            if (a[j] > 0) hole.push_back(P{m, h - a[j]});
+            hole.push_back(P{x1, h});
+            if (b[j] > 0) hole.push_back(P{m, h + b[j]});
+            hole.push_back(P{x, h}); holes.push_back(hole); x = x1; }
+        // the holes are listed in random order (the joiner sorts them itself)
+        for (size_t i = holes.size(); i > 1; i--) std::swap(holes[i - 1], holes[r.below(i)]);
+        for (auto& hl : holes) po.rings.push_back(hl);
     } else if (k < 70) {    // convex hull of random lattice points (monotone chain), optionally keeping collinear boundary points
         po.cls = "convex"; int n = r.range(3, 25); i64 R = pickRange(r); if (R > 1024) R = 1024; std::vector<P> pts; for (int i = 0; i < n; i++) pts.push_back(rndPt(r, R));
         std::sort(pts.begin(), pts.end()); pts.erase(std::unique(pts.begin(), pts.end()), pts.end());
